@@ -51,6 +51,11 @@ CHECKS = {
             "Virtual-clock histories with structured instants and advance steps straddling second/minute/hour/day/month/year boundaries, in 6 DST-free time zones; file partition must equal the model (rotate iff local period differs from the period in which the current file was started) and timestamp infixes must equal the instant the content was started. Search, not proof.",
             "trusts the verif_hooks clock redirection (every Local::now() of the file writer and the creation-time lookup), chrono's time-zone conversion, the reference model; async mode and direct-timestamp restarts excluded as stated in the evidence",
             "DESIGN.md 4/C09"),
+    "C13": ("exploration",
+            "model-based routing check (proptest cases against a routing model), syslog over a unix datagram socket, duplication in a child process with captured pipes",
+            "Generated writer sets (custom recorder, FileLogWriter with max_level, SyslogWriter with max_log_level), brace lists over registered/unknown names and _Default, levels, specs and module paths, Duplicate settings with run-time adaptation in a child process; what every writer, the default channel, stderr, stdout and the error channel receive must equal the routing model exactly (each record once, nobody else). Search, not proof.",
+            "trusts the routing model (src/props/c13.rs) and the reference matcher; brace lists without repeated names or blanks",
+            "DESIGN.md 4/C13"),
     "C15": ("exploration",
             "differential testing across write modes (proptest) + enumerated single-byte chunks",
             "The same generated record or raw-chunk sequence is run under Direct, buffered and async modes; ordered file contents must agree with the Direct run and with the partition model, chunk concatenation must equal the input; all 256 single-byte chunk values are enumerated. Search, not proof.",
